@@ -212,6 +212,20 @@ CLAIMED = {
              "runtime behaviour the model cannot exhibit.",
         technique="Coq proofs of schedule independence + fresh-process bit-identity measurement",
         design="7/C09"),
+    "C07": dict(
+        text="PARTIAL. Coq theorems: the code's circumcentre formula gives a point equidistant from the three vertices of any "
+             "non-degenerate triangle, lying on the perpendicular bisector of every side (so dual edges are pieces of Voronoi "
+             "faces); the three kites around any point tile the triangle (signed areas), hence kite sums add up to the "
+             "triangulated area; edge vectors/lengths/centres are those of the site pairs; boundary detection is a function of "
+             "the triangle set. Per generated mesh (10 devices quick / 60 thorough from the documented primitives, 0-2 holes, "
+             "0-4 terminals, smoothing, three max_edge_length and coherence lengths) EVERY site, edge and triangle is checked: "
+             "tiling of film minus holes, orientation, boundary on the outlines, V-E+T = 1-holes, local Delaunay property, and "
+             "where it and un-encroachment hold areas = Voronoi (kite) areas and dual lengths = Voronoi face lengths; terminal "
+             "lengths. Correspondence: dual_sites vs the model's circumcentre, kites in PrimFloat.",
+        note="Triangle (meshpy), qhull and shapely are external engines: their outputs are checked per instance, not proved; "
+             "the general planar Euler theorem and a formal Voronoi definition are not attempted.",
+        technique="Coq proofs of the dual-construction geometry + per-mesh exhaustive checks of every site/edge/triangle",
+        design="7/C07"),
 }
 
 PENDING_REASON = "check not built yet in this session (planned, see DESIGN.md section 7); not claimed until it runs"
